@@ -6,7 +6,9 @@ evaluated by icontract after every public method call, i.e. after every assignme
 assignments are mirrored into a dict (last write wins) and after every step every derived entry is
 compared with the value recomputed from the model.
 """
+import copy
 import math
+import pickle
 
 import numpy as np
 
@@ -38,6 +40,8 @@ class InvariantBroken(Exception):
 
 
 def close(a, b):
+    if a is None or b is None:
+        return False
     return abs(a - b) <= RTOL * max(abs(a), abs(b))
 
 
@@ -120,8 +124,31 @@ def gen_steps(rng, types, nsteps):
             steps.append([[int(rng.integers(0, n))], val, 'single'])
         else:
             ks = [int(x) for x in rng.permutation(n)[:int(rng.integers(1, n + 1))]]
-            steps.append([ks, val, str(rng.choice(['list', 'tuple']))])
+            steps.append([ks, val, str(rng.choice(['list', 'tuple', 'list', 'tuple', 'generator', 'iterator', 'map', 'dict_keys']))])
+        # the object the history continues on may be a copy of the one it started on (a forked System, a pickled job)
+        steps[-1].append(str(rng.choice(['deepcopy', 'pickle'])) if rng.random() < 0.08 else '')
     return steps
+
+
+def make_key(keys, form):
+    """every key form Table.listify documents: a single label, or any iterable of labels (one-shot iterables included)"""
+    if form == 'single':
+        return keys[0]
+    if form == 'tuple':
+        return tuple(keys)
+    if form == 'generator':
+        return (t for t in keys)
+    if form == 'iterator':
+        return iter(list(keys))
+    if form == 'map':
+        return map(lambda t: t, keys)
+    if form == 'dict_keys':
+        return dict.fromkeys(keys).keys()
+    return list(keys)
+
+
+def fork(obj, how):
+    return copy.deepcopy(obj) if how == 'deepcopy' else pickle.loads(pickle.dumps(obj))
 
 
 def expect_raise(ctx, obj, model, types, name, where):
@@ -146,7 +173,13 @@ def run_case(ctx, case):
         init_site = np.array(rho.site.data, copy=True)
     mr, md = {}, {}
     reassign = False
-    for k, (ks, val, form) in enumerate(steps):
+    forked = []
+    for k, (ks, val, form, forkhow) in enumerate(steps):
+        if forkhow:
+            # keep the originals: they must stay as they were at the fork, whatever happens to the copies
+            forked.append((rho, dia, dict(mr), dict(md), k))
+            rho, dia = fork(rho, forkhow), fork(dia, forkhow)
+            ctx.hook('history_continues_on_a_copy')
         if k % 4 == 3:
             # a typo in a sweep: an assignment to an unknown label must not disturb anything derived for the declared types
             for obj, name in ((rho, 'density'), (dia, 'diameter')):
@@ -156,11 +189,10 @@ def run_case(ctx, case):
                 except (ValueError, KeyError):
                     pass
         keys = [types[i] for i in ks]
-        key = keys[0] if form == 'single' else (tuple(keys) if form == 'tuple' else list(keys))
-        where = 'step %d: [%r]=%r' % (k, key, val)
+        where = 'step %d: [%s of %r]=%r%s' % (k, form, keys, val, (' on a %s copy' % forkhow) if forkhow else '')
         reassign |= any(t in mr for t in keys)
         # ---------------- density
-        rho[key] = val
+        rho[make_key(keys, form)] = val
         ctx.hook('density.step')
         for t in keys:
             mr[t] = val
@@ -188,7 +220,7 @@ def run_case(ctx, case):
             ctx.violation('density:total-stale', '%s: total=%r expected %r' % (where, rho.total, tot))
         expect_raise(ctx, rho, mr, types, 'density', where)
         # ---------------- diameter
-        dia[key] = val
+        dia[make_key(keys, form)] = val
         ctx.hook('diameter.step')
         for t in keys:
             md[t] = val
@@ -213,6 +245,17 @@ def run_case(ctx, case):
                     elif gs is not None:
                         ctx.violation('diameter:unassigned-entry-touched', '%s: sigma(%s,%s)=%r involves an unassigned type' % (where, x, y, gs))
         expect_raise(ctx, dia, md, types, 'diameter', where)
+    for orho, odia, omr, omd, k in forked:
+        ctx.hook('original_after_fork_checked')
+        for a in types:
+            if orho[a] != omr.get(a) or odia[a] != omd.get(a):
+                ctx.violation('density:original-changed-by-copy' if orho[a] != omr.get(a) else 'diameter:original-changed-by-copy',
+                              'the object copied at step %d reads [%s]=%r / %r afterwards, it held %r / %r when it was copied' % (k, a, orho[a], odia[a], omr.get(a), omd.get(a)))
+            for b in types:
+                if a in omr and b in omr and not close(orho.pair[a, b][0], omr[a] * omr[b]):
+                    ctx.violation('density:original-changed-by-copy', 'pair density (%s,%s) of the object copied at step %d changed to %r' % (a, b, k, orho.pair[a, b][0]))
+                if a in omd and b in omd and not close(odia.sigma[a, b], (omd[a] + omd[b]) / 2.0):
+                    ctx.violation('diameter:original-changed-by-copy', 'sigma(%s,%s) of the object copied at step %d changed to %r' % (a, b, k, odia.sigma[a, b]))
     if reassign:
         ctx.nontrivial([types, steps])
     ctx.count('ntypes', len(types))
